@@ -123,10 +123,18 @@ func (g *gen) genFuncFor(ftyp *types.Signature) error {
 	p.In()
 	p.P("return %s {", gStr)
 	p.In()
-	p.P("return f(%s)(%s)", strings.Join(firstStr, ", "), strings.Join(secondStr, ", "))
+	p.P("%sf(%s)(%s)", returnKeyword(gtyp), strings.Join(firstStr, ", "), strings.Join(secondStr, ", "))
 	p.Out()
 	p.P("}")
 	p.Out()
 	p.P("}")
 	return nil
+}
+
+// returnKeyword is empty for a function without results: its call is a statement, not a value to return.
+func returnKeyword(sig *types.Signature) string {
+	if sig.Results().Len() == 0 {
+		return ""
+	}
+	return "return "
 }
